@@ -188,4 +188,38 @@ VAvpsConcat(ev) ==
            \o T((\A i \in 1..Len(ev.recs) : wellDelimited(i))
                   /\ ~ItemsEq(Concat([i \in 1..Len(ev.parts) |-> ev.parts[i].out.v]), ev.whole.out.v), "concat-mismatch"))
      \o IoTags(ev)
+---------------------------------------------------------------------------
+\* C15, exactly as quantified: a control message assembled from k AVP records.
+\* ev.recs = the records, ev.parts[i] = what the implementation makes of record i ALONE
+\* (AVP::try_read_greedy), ev.out = what it makes of the whole message under strict options.
+\* The rule is applied to the implementation's own per-record results:
+\*   J = the individually undecodable records; accepted iff J = {} and the first record (if any) is a
+\*   Message Type; otherwise rejected, and when the first record is a valid Message Type the error list
+\*   is the errors of J in wire order (parsing stops at a record whose length field is unusable).
+VCtlRecords(ev) ==
+  LET k == Len(ev.recs)
+      body == Concat(ev.recs)
+      wellFormed == /\ Len(ev.in) = 12 + Len(body) /\ Drop(ev.in, 12) = body /\ U16At(ev.in, 2) = Len(ev.in)
+      partsOk == \A i \in 1..k : Finished(ev.parts[i].out) /\ Len(ev.parts[i].out.v) = 1
+      item(i) == ev.parts[i].out.v[1]
+      \* a record with an unusable length ends the parse: the specification says which ones those are
+      stops(i) == DecodeAvps(ev.recs[i]).stopped
+      firstStop == IF \E i \in 1..k : stops(i) THEN CHOOSE i \in 1..k : stops(i) /\ \A j \in 1..(i - 1) : ~stops(j) ELSE k
+      seen == 1..firstStop                                   \* the records the parser gets to
+      J == { i \in seen : item(i).t = "err" }
+      firstIsMT == k > 0 /\ item(1).t = "ok" /\ item(1).v.k = "MessageType"
+      shouldAccept == J = {} /\ (k = 0 \/ firstIsMT)
+      errs == [n \in 1..Cardinality(J) |-> item(CHOOSE i \in J : Cardinality({j \in J : j < i}) = n - 1).v]
+  IN (IF ~wellFormed THEN <<"harness-ctl-records">>
+      ELSE IF ~Finished(ev.out) THEN <<"outcome-" \o ev.out.t>>
+      ELSE IF ~partsOk THEN << >>                            \* a record that is not a single item alone: out of scope here
+      ELSE IF shouldAccept
+        THEN IF ev.out.t # "ok" THEN <<"all-or-nothing">>
+             ELSE T(~AvpsEq(ev.out.v.avps, [i \in 1..k |-> item(i).v]), "all-or-nothing")
+      ELSE IF ev.out.t # "err" THEN <<"all-or-nothing">>
+      ELSE T(ev.out.v = << >>, "empty-errors")
+           \o (IF ~firstIsMT THEN << >>
+               ELSE T(Len(ev.out.v) # Cardinality(J), "error-count")
+                    \o T(Len(ev.out.v) = Cardinality(J) /\ ev.out.v # errs, "error-order")))
+     \o IoTags(ev)
 =============================================================================
